@@ -41,6 +41,10 @@ sys.path.insert(0, os.path.join(ROOT, "tools"))
 import props  # noqa: E402
 
 
+os.makedirs(os.path.join(WORK, "tmp"), exist_ok=True)
+os.environ["TMPDIR"] = os.path.join(WORK, "tmp")   # spill files, uploads: never under /tmp
+
+
 def goenv():
     e = dict(os.environ)
     e["GOFLAGS"] = "-mod=mod"
